@@ -67,7 +67,10 @@ fn pick_mix(r: &mut Rng, mix: &[(String, u64)]) -> String {
 }
 
 pub fn run_case(id: &str, desc: &str, f: impl FnOnce(&mut Out)) {
+    use std::io::Write;
     println!("case {} {}", id, desc);
+    // flushed immediately: if the case hangs inside the solver, the runner can name it
+    let _ = std::io::stdout().flush();
     let mut out = Out::default();
     let r = catch_unwind(AssertUnwindSafe(|| f(&mut out)));
     for l in &out.lines {
@@ -75,6 +78,22 @@ pub fn run_case(id: &str, desc: &str, f: impl FnOnce(&mut Out)) {
     }
     if r.is_err() {
         println!("panic case {}", last_panic().replace(' ', "_"));
+        if pumpkin_solver::verif_hooks::tap_is_enabled() {
+            let recs = pumpkin_solver::verif_hooks::tap_drain();
+            for r in recs.iter().rev().take(25).rev() {
+                println!(
+                    "# tap {:?} {} tag={:?} lvl={} pos={} alltrue={} {} <- {}",
+                    r.kind,
+                    r.propagator,
+                    r.tag,
+                    r.level,
+                    r.trail_position,
+                    r.reason_all_true,
+                    r.predicate.map(|p| p.to_string()).unwrap_or("FALSE".into()),
+                    r.reason.iter().map(|p| p.to_string()).collect::<Vec<_>>().join(" & ")
+                );
+            }
+        }
     }
 }
 
@@ -111,6 +130,12 @@ fn cfg_from(args: &Args) -> GenCfg {
     if let Some(v) = args.kv.get("maxproduct") {
         cfg.max_product = v.parse().unwrap();
     }
+    if let Some(v) = args.kv.get("big") {
+        cfg.big_pct = v.parse().unwrap();
+    }
+    if let Some(v) = args.kv.get("plant") {
+        cfg.plant_pct = v.parse().unwrap();
+    }
     cfg
 }
 
@@ -124,10 +149,9 @@ fn mode_answers(args: &Args) {
         args.mix.clone()
     };
     let limit: usize = args.kv.get("limit").map(|s| s.parse().unwrap()).unwrap_or(3000);
-    let only: Option<usize> = args.kv.get("only").map(|s| s.parse().unwrap());
     for i in 0..args.cases {
         let case_seed = master.next();
-        if only.is_some() && only != Some(i) {
+        if only_skip(args, i) {
             continue;
         }
         let mut r = Rng(case_seed);
@@ -161,6 +185,238 @@ fn mode_answers(args: &Args) {
     }
 }
 
+fn mode_bounds(args: &Args) {
+    let mut master = Rng::new(args.seed);
+    let cfg = cfg_from(args);
+    for i in 0..args.cases {
+        let case_seed = master.next();
+        if only_skip(args, i) {
+            continue;
+        }
+        let mut r = Rng(case_seed);
+        let m = gen_model(&mut r, &cfg);
+        let setup = Setup::random(&mut r);
+        let id = format!("{}-{}", args.seed, i);
+        run_case(&id, &format!("scen=bounds seed={} {}", case_seed, setup.describe()), |out| {
+            kinds_meta(&m, out);
+            scen_bounds(&m, &setup, &mut r, out)
+        });
+    }
+}
+
+fn only_skip(args: &Args, i: usize) -> bool {
+    if let Some(s) = args.kv.get("skip") {
+        if s.split(',').any(|t| t.parse::<usize>().ok() == Some(i)) {
+            return true;
+        }
+    }
+    match args.kv.get("only") {
+        Some(s) => s.parse::<usize>().unwrap() != i,
+        None => false,
+    }
+}
+
+/// C07: every model under `--nconfigs` option vectors / branchers
+fn mode_configs(args: &Args) {
+    let mut master = Rng::new(args.seed);
+    let cfg = cfg_from(args);
+    let nconfigs: usize = args.kv.get("nconfigs").map(|s| s.parse().unwrap()).unwrap_or(6);
+    for i in 0..args.cases {
+        let case_seed = master.next();
+        if only_skip(args, i) {
+            continue;
+        }
+        let mut r = Rng(case_seed);
+        let m = gen_model(&mut r, &cfg);
+        let what = *r.pick(&["satisfy", "iterate", "iterate", "optimise", "optimise"]);
+        let spec = OptSpec { maximise: r.chance(1, 2), lus: r.chance(1, 2), objective: gen_objective(&mut r, &m) };
+        let mut setups: Vec<Setup> = (0..nconfigs).map(|_| Setup::random(&mut r)).collect();
+        // always include the default configuration and the no-learning resolver
+        setups[0] = Setup { opts: config::Opts::default(), bspec: config::BrancherSpec::Default, style_seed: 0 };
+        if nconfigs > 1 {
+            setups[1].opts.resolver_uip = false;
+        }
+        let id = format!("{}-{}", args.seed, i);
+        run_case(&id, &format!("scen=configs:{} seed={} nconfigs={}", what, case_seed, nconfigs), |out| {
+            kinds_meta(&m, out);
+            scen_configs(&m, &setups, what, &spec, out)
+        });
+    }
+}
+
+/// C11: interrupt at poll k
+fn mode_interrupt(args: &Args) {
+    let mut master = Rng::new(args.seed);
+    let mut cfg = cfg_from(args);
+    cfg.max_product = cfg.max_product.min(3000);
+    let thorough = args.kv.get("thorough").map(|s| s == "1").unwrap_or(false);
+    for i in 0..args.cases {
+        let case_seed = master.next();
+        if only_skip(args, i) {
+            continue;
+        }
+        let mut r = Rng(case_seed);
+        let m = gen_model(&mut r, &cfg);
+        let setup = Setup::random(&mut r);
+        let what = *r.pick(&["satisfy", "satisfy", "iterate", "optimise", "optimise"]);
+        let spec = OptSpec { maximise: r.chance(1, 2), lus: r.chance(1, 2), objective: gen_objective(&mut r, &m) };
+        let id = format!("{}-{}", args.seed, i);
+        let desc = format!("scen=interrupt:{}{} seed={} {}", what, if what == "optimise" { if spec.lus { ":lus" } else { ":lsu" } } else { "" }, case_seed, setup.describe());
+        run_case(&id, &desc, |out| {
+            kinds_meta(&m, out);
+            scen_interrupt(&m, &setup, what, &spec, &mut r, thorough, out)
+        });
+    }
+}
+
+fn gen_ops(r: &mut Rng, pool: &Model, nvars_initial: usize) -> Vec<Op> {
+    let n = 3 + r.usize(8);
+    let mut cons: Vec<Cons> = pool.cons.clone();
+    let mut ops = vec![];
+    let mut nvars = nvars_initial;
+    // variables beyond `nvars_initial` of the pool model are introduced by NewVar ops, in order;
+    // a constraint is only posted once all of its variables exist
+    let mut pending_vars: Vec<VarDecl> = pool.vars[nvars_initial..].to_vec();
+    for _ in 0..n {
+        match r.below(10) {
+            0 | 1 | 2 => {
+                // post the next constraint whose variables exist
+                if let Some(pos) = cons.iter().position(|c| {
+                    let mut vs = vec![];
+                    c.vars(&mut vs);
+                    vs.iter().all(|v| *v < nvars)
+                }) {
+                    ops.push(Op::Post(cons.remove(pos)));
+                } else if !pending_vars.is_empty() {
+                    ops.push(Op::NewVar(pending_vars.remove(0)));
+                    nvars += 1;
+                }
+            }
+            3 => {
+                if !pending_vars.is_empty() {
+                    ops.push(Op::NewVar(pending_vars.remove(0)));
+                    nvars += 1;
+                } else {
+                    ops.push(Op::Satisfy);
+                }
+            }
+            4 | 5 => ops.push(Op::Satisfy),
+            6 => {
+                let sub = Model { vars: pool.vars[..nvars].to_vec(), cons: vec![] };
+                ops.push(Op::Assume(gen_assumptions(r, &sub), r.chance(2, 3)));
+            }
+            7 => ops.push(Op::Iterate(1 + r.usize(4))),
+            _ => {
+                let sub = Model { vars: pool.vars[..nvars].to_vec(), cons: vec![] };
+                ops.push(Op::Optimise(OptSpec { maximise: r.chance(1, 2), lus: r.chance(1, 2), objective: gen_objective(r, &sub) }));
+            }
+        }
+    }
+    ops
+}
+
+/// C10: histories of API calls on one solver
+fn mode_history(args: &Args) {
+    let mut master = Rng::new(args.seed);
+    let mut cfg = cfg_from(args);
+    cfg.max_product = cfg.max_product.min(4000);
+    for i in 0..args.cases {
+        let case_seed = master.next();
+        if only_skip(args, i) {
+            continue;
+        }
+        let mut r = Rng(case_seed);
+        let pool = gen_model(&mut r, &cfg);
+        // literal variables and the first few variables exist from the start
+        let nvars_initial = (2 + r.usize(3)).min(pool.vars.len());
+        // literals used as reification literals must exist before the constraint is posted; keep it simple:
+        // all variables that are literals are created up front by reordering is not possible (indices), so
+        // only integer variables at the tail are deferred
+        let mut k = pool.vars.len();
+        while k > nvars_initial && pool.vars[k - 1].kind != VarKind::Lit {
+            k -= 1;
+        }
+        let nvars_initial = k.max(nvars_initial);
+        let initial = Model { vars: pool.vars[..nvars_initial].to_vec(), cons: vec![] };
+        let ops = gen_ops(&mut r, &pool, nvars_initial);
+        let setup = Setup::random(&mut r);
+        let id = format!("{}-{}", args.seed, i);
+        let desc = format!(
+            "scen=history seed={} ops={} {}",
+            case_seed,
+            ops.iter().map(|o| o.describe()).collect::<Vec<_>>().join(","),
+            setup.describe()
+        );
+        run_case(&id, &desc, |out| scen_history(&initial, &ops, &setup, out));
+    }
+}
+
+/// C18: every variable selector x value selector (and the composite branchers) during real solves
+fn mode_branchers(args: &Args) {
+    use config::*;
+    let mut master = Rng::new(args.seed);
+    let mut cfg = cfg_from(args);
+    cfg.max_product = cfg.max_product.min(5000);
+    let grid = NUM_VARSEL * NUM_VALSEL;
+    for i in 0..args.cases {
+        let case_seed = master.next();
+        if only_skip(args, i) {
+            continue;
+        }
+        let mut r = Rng(case_seed);
+        let m = gen_model(&mut r, &cfg);
+        let mut setup = Setup::random(&mut r);
+        // cycle deterministically through the grid; every 5th case uses a composite brancher
+        let g = (i + args.seed as usize * 37) % grid;
+        setup.bspec = match i % 5 {
+            4 => match r.below(4) {
+                0 => BrancherSpec::Default,
+                1 => BrancherSpec::Dynamic(g % NUM_VARSEL, g / NUM_VARSEL, r.usize(NUM_VARSEL), r.usize(NUM_VALSEL), r.usize(100)),
+                2 => BrancherSpec::Alternating(r.below(4) as u8, g % NUM_VARSEL, g / NUM_VARSEL),
+                _ => BrancherSpec::Autonomous(g % NUM_VARSEL, g / NUM_VARSEL),
+            },
+            _ => BrancherSpec::Indep(g % NUM_VARSEL, g / NUM_VARSEL),
+        };
+        let scen = *r.pick(&["satisfy", "iterprefix", "iterprefix", "interrupted"]);
+        let id = format!("{}-{}", args.seed, i);
+        let desc = format!("scen={} seed={} {}", scen, case_seed, setup.describe());
+        run_case(&id, &desc, |out| {
+            kinds_meta(&m, out);
+            match scen {
+                "satisfy" => scen_satisfy(&m, &setup, out),
+                "iterprefix" => scen_iterate(&m, &setup, 2 + r.usize(8), out),
+                _ => {
+                    let spec = OptSpec { maximise: false, lus: false, objective: View::of(0) };
+                    scen_interrupt(&m, &setup, "satisfy", &spec, &mut r, false, out)
+                }
+            }
+        });
+    }
+}
+
+/// C17: explanation tap during real searches
+fn mode_tap(args: &Args) {
+    let mut master = Rng::new(args.seed);
+    let mut cfg = cfg_from(args);
+    cfg.max_product = cfg.max_product.min(1500);
+    cfg.plant_pct = 35; // more conflicts
+    for i in 0..args.cases {
+        let case_seed = master.next();
+        if only_skip(args, i) {
+            continue;
+        }
+        let mut r = Rng(case_seed);
+        let m = gen_model(&mut r, &cfg);
+        let setup = Setup::random(&mut r);
+        let k = if r.chance(1, 2) { 1 } else { 2 + r.usize(30) };
+        let id = format!("{}-{}", args.seed, i);
+        run_case(&id, &format!("scen=tap seed={} k={} {}", case_seed, k, setup.describe()), |out| {
+            kinds_meta(&m, out);
+            scen_tap(&m, &setup, k, out)
+        });
+    }
+}
+
 /// One hand-written case: `pharness one --scen satisfy --model "<text>" [--opts ".."] [--brancher ".."]
 /// [--style N] [--cumopt I] [--assume "<atoms>"] [--obj "<view>"] [--max 0|1] [--lus 0|1] [--id name]`
 fn mode_one(args: &Args) {
@@ -180,6 +436,34 @@ fn mode_one(args: &Args) {
         match scen.as_str() {
             "satisfy" => scen_satisfy(&m, &setup, out),
             "iterate" => scen_iterate(&m, &setup, 100000, out),
+            "satisfy2" => {
+                // post everything, then two plain solves on the same solver
+                let initial = Model { vars: m.vars.clone(), cons: vec![] };
+                let mut ops: Vec<Op> = m.cons.iter().cloned().map(Op::Post).collect();
+                ops.push(Op::Satisfy);
+                ops.push(Op::Satisfy);
+                scen_history(&initial, &ops, &setup, out)
+            }
+            "tap" => scen_tap(&m, &setup, args.kv.get("k").map(|s| s.parse().unwrap()).unwrap_or(1), out),
+            "tapdump" => {
+                use pumpkin_solver::verif_hooks::*;
+                tap_enable(true);
+                let _ = tap_drain();
+                scen_iterate(&m, &setup, 100000, out);
+                tap_enable(false);
+                for r in tap_drain() {
+                    out.meta(format!(
+                        "{:?} {} tag={:?} lvl={} pos={} {} <- {}",
+                        r.kind,
+                        r.propagator,
+                        r.tag,
+                        r.level,
+                        r.trail_position,
+                        r.predicate.map(|p| p.to_string()).unwrap_or("FALSE".into()),
+                        r.reason.iter().map(|p| p.to_string()).collect::<Vec<_>>().join(" & ")
+                    ));
+                }
+            }
             "optimise" => {
                 let objective = Toks::new(args.kv.get("obj").expect("--obj")).view();
                 let spec = OptSpec {
@@ -201,12 +485,21 @@ fn mode_one(args: &Args) {
 fn main() {
     install_panic_hook();
     let args = parse_args();
+    if args.kv.get("tapdump").map(|s| s == "1").unwrap_or(false) {
+        pumpkin_solver::verif_hooks::tap_enable(true);
+    }
     if args.kv.get("allow-subset-random").map(|s| s == "1").unwrap_or(false) {
         config::ALLOW_SUBSET_RANDOM.store(true, std::sync::atomic::Ordering::Relaxed);
     }
     match args.mode.as_str() {
         "answers" => mode_answers(&args),
         "one" => mode_one(&args),
+        "bounds" => mode_bounds(&args),
+        "tap" => mode_tap(&args),
+        "configs" => mode_configs(&args),
+        "interrupt" => mode_interrupt(&args),
+        "history" => mode_history(&args),
+        "branchers" => mode_branchers(&args),
         "genonly" => {
             let mut master = Rng::new(args.seed);
             let cfg = cfg_from(&args);
